@@ -184,6 +184,34 @@ def run_check(prop, repo):
     return prop, pr.returncode, first[:260]
 
 
+def run_for_prop(prop, repo_root="/repo", names=("fmt", "tmpret", "locals", "negif", "reorder", "all")):
+    """Used by the thorough tier: [(transformation, exit code, first line)] of the property's check on each transformed copy."""
+    out = []
+
+    def one(name):
+        d = Path(tempfile.mkdtemp(prefix=f"sgbenign_{name}_", dir="/var/tmp"))
+        try:
+            for c in ("suit_generator", "ncs", "build_configuration", "requirements.txt"):
+                src = Path(repo_root) / c
+                if src.is_dir():
+                    shutil.copytree(src, d / c, ignore=shutil.ignore_patterns("__pycache__", "*.pyc"))
+                elif src.is_file():
+                    shutil.copy(src, d / c)
+            for step in (["tmpret", "locals", "negif", "reorder"] if name == "all" else [name]):
+                apply(d, step)
+            for p_ in list((d / "suit_generator").rglob("*.py")) + list((d / "ncs").rglob("*.py")):
+                compile(p_.read_text(), str(p_), "exec")
+            _, rc, first = run_check(prop, d)
+            return name, rc, first
+        except SyntaxError as e:
+            return name, -1, f"transformed tree does not compile: {e}"
+        finally:
+            shutil.rmtree(d, ignore_errors=True)
+    with ThreadPoolExecutor(6) as ex:
+        out = list(ex.map(one, names))
+    return out
+
+
 def main():
     ap = argparse.ArgumentParser()
     ap.add_argument("--transform", default="fmt,tmpret,locals,negif,reorder,all")
